@@ -59,7 +59,7 @@ theorem bandOk_sound (d1 d2 : Int) (aln : Aln) (h : bandOk (some (d1, d2)) aln =
   have := h _ hm
   simpa [inBandCol] using this
 
-theorem seedOk_sound (si sj : Nat) (dir : Dir) (aln : Aln) (h : seedOk (some (si, sj)) dir aln = true) :
+theorem seedOk_sound (si sj : Nat) (dir : XDir) (aln : Aln) (h : seedOk (some (si, sj)) dir aln = true) :
     Col.both si sj ∈ aln ∧ (dir = .upstream → aln.getLast? = some (.both si sj)) ∧
       (dir = .downstream → aln.head? = some (.both si sj)) := by
   simp only [seedOk, Bool.and_eq_true, List.contains_iff_mem] at h
